@@ -54,18 +54,18 @@ ASSUMPTIONS = [
     "in-process tap does not see",
 ]
 SHARDS = {"quick": 4, "thorough": 16}
-BUDGET_S = {"quick": 75, "thorough": 640}
+BUDGET_S = {"quick": 65, "thorough": 600}
 FLOORS = {
     "quick": {"crash_points": 2500, "evaluations.snapshot": 5000, "tx.committed": 5, "tx.both_outcomes": 5,
               "flip.at_toc_rename": 5, "reach.merge_small": 1, "reach.optimize_merge": 1, "reach.clear": 1,
               "reach.loose_commit": 1, "reach.cancel_or_exception": 1, "variant.flushed.evals": 100,
               "variant.mid.evals": 2000, "model.crosscheck": 15, "lock.stale_file_present": 4000,
               "realkill.traces_validated": 2},
-    "thorough": {"crash_points": 40000, "evaluations.snapshot": 80000, "tx.committed": 80, "tx.both_outcomes": 80,
-                 "flip.at_toc_rename": 80, "reach.merge_small": 5, "reach.optimize_merge": 5, "reach.clear": 5,
-                 "reach.loose_commit": 5, "reach.cancel_or_exception": 5, "variant.flushed.evals": 1500,
-                 "variant.mid.evals": 30000, "model.crosscheck": 150, "lock.stale_file_present": 50000,
-                 "realkill.traces_validated": 60},
+    "thorough": {"crash_points": 25000, "evaluations.snapshot": 50000, "tx.committed": 45, "tx.both_outcomes": 45,
+                 "flip.at_toc_rename": 45, "reach.merge_small": 3, "reach.optimize_merge": 5, "reach.clear": 5,
+                 "reach.loose_commit": 10, "reach.cancel_or_exception": 10, "variant.flushed.evals": 1000,
+                 "variant.mid.evals": 20000, "model.crosscheck": 100, "lock.stale_file_present": 50000,
+                 "realkill.traces_validated": 30},
 }
 
 VOCAB = ["alfa", "bravo", "charlie", "delta", "echo", "foxtrot", "golf", "hotel"]
@@ -315,7 +315,10 @@ class Gen(object):
         if front == "segment" and rng.random() < 0.12:
             tx["limitmb"] = 0.0002      # ~200 bytes: forces posting-pool run files in MAIN.tmp/
         if front == "buffered":
-            tx["buflimit"] = 100     # a single commit at close() (auto-commits would be several transactions)
+            # limit 1/2: BufferedWriter commits by itself every 1-2 documents (several commits inside one
+            # "transaction": each intermediate clean state is observed at its lock release); 100: one commit at close().
+            # commitargs apply to every inner commit, so CLEAR is only meaningful with a single commit.
+            tx["buflimit"] = 100 if tx["commit"] == "clear" else rng.choice([1, 2, 100])
             tx["finish"] = "commit"
         if front == "async" and tx["finish"] not in ("commit", "cancel"):
             tx["finish"] = "commit"
@@ -328,7 +331,8 @@ def gen_history(rng, idx, tier):
     g = Gen(rng, tier)
     model, fs = {}, set(["id", "t", "n", "k"])
     prelude = []
-    npre = {"merge": 5 if tier == "quick" else rng.randint(5, 7), "optimize": rng.randint(2, 4), "clear": rng.randint(1, 3),
+    npre = {"merge": 5 if tier == "quick" else rng.randint(5, 7),
+            "optimize": rng.randint(2, 4) if tier == "quick" else rng.randint(2, 8), "clear": rng.randint(1, 3),
             "loose": rng.randint(0, 3)}[theme]
     for _ in range(npre):
         tx = g.tx(model, fs, commit="nomerge", finish="commit", maxops=1 if tier == "quick" else 2, schema_ops=False,
@@ -520,21 +524,25 @@ class TxRun(object):
         self.wb = witness_base
         self.dirty = True
         self.struct_done = 0
-        self.results = []           # (n, kind, name, verdict) per evaluated crash point, in order
-        self.last_verdict = None
         self.flushed_fp = None
-        self.flushed_verdict = None
-        self.nsnap = 0
-        self.failed = False
         self.kill_samples = []
         self.kill_prob = 0.0
-        self.aborted = False
-        self.ref_old = None
-        self.ref_new = None
-        self.pending = []           # snapshots taken before ref_new is known: (n, kind, name, variant, info, obs|EvalFailure)
+        self.states = []            # clean committed states in order: [S_old, after 1st commit, ...]
+        self.bounds = []            # bounds[k] = event index of the lock-release at which states[k+1] was clean
+        self.pending = []           # (n, kind, name, variant, cuts, ("s", state index, orphans, leftover) | obs | EvalFailure)
+        self.ck_failure = None
 
     # -- snapshots -------------------------------------------------------
     def on_event(self, n, kind, name, detail):
+        try:
+            self._on_event(n, kind, name, detail)
+        except Exception as e:  # noqa - a bug of the harness must never look like a whoosh failure
+            from vf.core import HarnessError
+            if isinstance(e, HarnessError):
+                raise
+            raise HarnessError("tap callback failed: %r\n%s" % (e, _tb(e)))
+
+    def _on_event(self, n, kind, name, detail):
         from vf.tap import MUTATING
         ctx = self.ctx
         ctx.count("events.total")
@@ -548,6 +556,32 @@ class TxRun(object):
             self.dirty = True
             if kind != "write":
                 self.struct_done += 1
+        if kind == "lock-released":
+            self.checkpoint(n)
+
+    def checkpoint(self, n):
+        """A writer has just finished (commit or cancel) and released the lock: the directory is in a clean
+        committed state. Observe a copy of it now; it becomes the next allowed state if it differs."""
+        rstate = random.getstate()
+        ck = os.path.join(self.root, "ck")
+        try:
+            with self.tap.muted():
+                if os.path.exists(ck):
+                    shutil.rmtree(ck)
+                shutil.copytree(self.d, ck)
+                self.ctx.count("checkpoints")
+                try:
+                    c = comparable(evaluate(ck, "%d:%d" % (self.idx, self.j)))
+                except EvalFailure as ef:
+                    if self.ck_failure is None:
+                        self.ck_failure = (n, ef)
+                    return
+                if c != self.states[-1]:
+                    self.states.append(c)
+                    self.bounds.append(n)
+        finally:
+            shutil.rmtree(ck, ignore_errors=True)
+            random.setstate(rstate)
 
     def crash_point(self, n, kind, name):
         ctx, tap = self.ctx, self.tap
@@ -574,7 +608,6 @@ class TxRun(object):
                 if any(s.total - s.flushed >= 2 for s in sts):
                     variants.append("mid")
             for variant in variants:
-                self.nsnap += 1
                 snap = os.path.join(self.root, "snap")
                 if os.path.exists(snap):
                     shutil.rmtree(snap)
@@ -593,11 +626,14 @@ class TxRun(object):
                 shutil.rmtree(snap, ignore_errors=True)
 
     def slim(self, obs):
-        """Keep only what the verdict needs: match against ref_old now; keep the full obs only when it differs."""
+        """Keep only what the verdict needs: match against the clean states known so far; keep the full
+        observation only when it matches none of them (it may match a state that becomes known later)."""
         if isinstance(obs, EvalFailure):
             return obs
-        if comparable(obs) == self.ref_old_cmp:
-            return ("old", obs["orphans"], obs["leftover"])
+        c = comparable(obs)
+        for i in range(len(self.states) - 1, -1, -1):
+            if c == self.states[i]:
+                return ("s", i, obs["orphans"], obs["leftover"])
         return obs
 
     def keep_kill_sample(self, n, kind, name, snap, sts):
@@ -698,7 +734,7 @@ def run_monitored_tx(ctx, tap, root, d, idx, j, tx, rng, wb, model, new_model, f
     # model cross-check of S_old
     crosscheck(ctx, "S_old", ref_old, model, fs, wb)
     run = TxRun(ctx, tap, root, d, idx, j, tx, rng, wb)
-    run.ref_old_cmp = comparable(ref_old)
+    run.states.append(comparable(ref_old))
     if kill_budget > 0 and not tx.get("create"):
         run.kill_prob = ctx.pick(0.004, 0.01)
     tap.reset_log()
@@ -710,6 +746,9 @@ def run_monitored_tx(ctx, tap, root, d, idx, j, tx, rng, wb, model, new_model, f
     except Exception as e:  # noqa - the clean execution itself failed: not a crash-atomicity matter
         tap.pause()
         tap.on_event = None
+        from vf.core import HarnessError
+        if isinstance(e, HarnessError):
+            raise
         site = _site(e)
         ctx.fail("clean-execution", "exc:%s@%s" % (type(e).__name__, site), wb,
                  "".join(traceback.format_exception(type(e), e, e.__traceback__))[-2500:])
@@ -736,16 +775,28 @@ def run_monitored_tx(ctx, tap, root, d, idx, j, tx, rng, wb, model, new_model, f
     crosscheck(ctx, "S_new", ref_new, new_model, new_fs, wb)
     old_cmp, new_cmp = comparable(ref_old), comparable(ref_new)
     same = (old_cmp == new_cmp)
+    if run.ck_failure is not None:
+        n_ck, ef = run.ck_failure
+        ctx.fail("clean-execution", "state-after-lock-release-unobservable:%s:exc:%s@%s" % (
+            ef.phase, type(ef.exc).__name__, _site(ef.exc)), wb, _tb(ef.exc))
+        return False, info
+    states, bounds = run.states, run.bounds
+    if new_cmp != states[-1]:
+        # only for transactions that do not end with a lock release (index creation)
+        states.append(new_cmp)
+        bounds.append(nevents + 1 if not tx.get("create") else nevents)
+    info["nstates"] = len(states)
     if not committed:
         ctx.count("reach.cancel_or_exception")
-        if not same:
+        if not same or len(states) != 1:
             ctx.fail("cancel.state", "cancelled-transaction-changed-state:%s" % tx["finish"], wb,
                      "; ".join(first_difference(old_cmp, new_cmp)))
             return False, info
     else:
         ctx.count("tx.committed")
-        if same:
-            ctx.count("tx.committed.no_observable_change")
+        ctx.count("tx.commits_inside", len(states) - 1)
+        if len(states) > 2:
+            ctx.count("tx.multi_commit")
     segs_after = len(index.open_dir(d)._segments())
     if committed and not tx.get("create"):
         added = any(o[0] in ("add", "upd", "add_reader") for o in tx["ops"])
@@ -753,23 +804,28 @@ def run_monitored_tx(ctx, tap, root, d, idx, j, tx, rng, wb, model, new_model, f
             ctx.count("reach.merge_small")
         if tx["commit"] == "optimize" and segs_before >= 2:
             ctx.count("reach.optimize_merge")
+            if segs_before >= 5:
+                ctx.count("reach.optimize_merge_5plus_segments")
         if tx["commit"] == "clear" and segs_before >= 1:
             ctx.count("reach.clear")
         if not tx["compound"] and added:
             ctx.count("reach.loose_commit")
-        if tx.get("limitmb") and tap.kind_counts:
+        if tx.get("limitmb"):
             if any(e[2] == "create" and e[3].endswith(".run") for e in tap.events):
                 ctx.count("reach.pool_run_files")
         if any(o[0] in ("add_field", "remove_field") for o in tx["ops"]):
             ctx.count("reach.schema_change_commit")
-    # ---- verdicts over the crash points, in event order
-    seen_old = seen_new = False
+    # ---- verdicts over the crash points, in event order.  Crash point "before event n" lies between the
+    # clean states lo = #(lock releases that established a new state before n) and lo+1: only these two are allowed.
+    seen = set()
+    flips = []          # (state index reached, crash point n) at the first 'full' snapshot showing it
+    top_full = 0
     ok = True
     for (n, kind, name, variant, cuts, obs) in run.pending:
         w = dict(wb)
         w.update({"crash_before_event": n, "event_kind": kind, "event_file": norm_name(name), "variant": variant,
                   "open_file_cuts(cut,flushed,total)": dict((norm_name(k), v) for k, v in cuts.items()),
-                  "events_in_tx": nevents})
+                  "events_in_tx": nevents, "clean_states_in_tx": len(states)})
         where = "%s:%s" % (kind, fileclass(name))
         if isinstance(obs, EvalFailure):
             e = obs.exc
@@ -778,33 +834,39 @@ def run_monitored_tx(ctx, tap, root, d, idx, j, tx, rng, wb, model, new_model, f
             ok = False
             break
         if isinstance(obs, tuple):
-            verdict, orphans, leftover = obs
+            _, m, orphans, leftover = obs
         else:
             c = comparable(obs)
             orphans, leftover = obs["orphans"], obs["leftover"]
-            if c == new_cmp:
-                verdict = "new"
-            elif c == old_cmp:
-                verdict = "old"
-            else:
-                verdict = None
-        if same and verdict is not None:
-            verdict = "old" if not committed else verdict
-        if verdict is None:
+            m = None
+            for i in range(len(states) - 1, -1, -1):
+                if c == states[i]:
+                    m = i
+                    break
+        lo = sum(1 for b in bounds if b < n)
+        if m is None:
             c = comparable(obs)
-            which, ref = nearest(c, old_cmp, new_cmp)
+            ref = states[min(lo + 1, len(states) - 1)] if state_gen(c) != state_gen(states[lo]) else states[lo]
             part = "state" if c["state"] != ref["state"] else "after-fresh-commit"
-            w["expected"] = "observation identical to clean S_old or clean S_new"
-            w["observed_vs_%s" % which] = first_difference(ref, c)
+            w["expected"] = "observation identical to the clean state before or after the commit in progress"
+            w["observed_vs_nearest_clean_state"] = first_difference(ref, c)
             w["observed_keys"] = keys_of(c["state"])
-            w["old_keys"] = keys_of(old_cmp["state"])
-            w["new_keys"] = keys_of(new_cmp["state"])
+            w["allowed_keys"] = [keys_of(states[i]["state"]) for i in range(lo, min(lo + 2, len(states)))]
             ctx.fail("crash-state.atomicity", "neither-old-nor-new:%s:before:%s[%s]" % (part, where,
                                                                                           variant_class(variant)), w,
-                     "; ".join(w["observed_vs_%s" % which]))
+                     "; ".join(w["observed_vs_nearest_clean_state"]))
             ok = False
             break
-        ctx.count("outcome." + verdict)
+        if not (lo <= m <= lo + 1):
+            w["observed_state_index"] = m
+            w["allowed_state_indexes"] = [lo, lo + 1]
+            w["observed_keys"] = keys_of(states[m]["state"])
+            ctx.fail("crash-state.atomicity", "%s:before:%s[%s]" % (
+                "completed-commit-lost" if m < lo else "state-of-a-later-commit", where, variant_class(variant)), w)
+            ok = False
+            break
+        ctx.count("outcome.old" if m == lo else "outcome.new")
+        seen.add(m)
         for lf in leftover:
             ctx.count("leftover." + lf.split(":")[0])
         if orphans:
@@ -813,38 +875,45 @@ def run_monitored_tx(ctx, tap, root, d, idx, j, tx, rng, wb, model, new_model, f
                      "files %r belong to no segment of the current TOC" % (orphans,))
             ok = False
             break
-        if verdict == "old":
-            seen_old = True
-            if seen_new and not same:
+        if variant == "full":
+            if m > top_full:
+                flips.append((m, n))
+                top_full = m
+            elif m < top_full:
                 ctx.count("flip.back_to_old")
-        else:
-            seen_new = True
-    if ok and committed and not same:
-        if seen_old and seen_new:
+    if ok and committed and len(states) > 1:
+        if len(seen) == len(states):
             ctx.count("tx.both_outcomes")
             info["both"] = True
         else:
             ctx.count("tx.single_outcome")
-            ctx.note("history %d tx %d: outcomes old=%s new=%s" % (idx, j, seen_old, seen_new))
-        # the event executed just before the first 'new' snapshot is the last mutating event before it
-        fl = last_mutating_before(tap.events, run.pending, seen_new)
-        if fl is not None:
+            ctx.note("history %d tx %d: states observed %r of %d" % (idx, j, sorted(seen), len(states)))
+        from vf.tap import MUTATING
+        for (m, n) in flips:
+            # the event executed just before the first snapshot showing state m
+            fl = None
+            for ev in tap.events:
+                if ev[0] < n and ev[2] in MUTATING:
+                    fl = ev
+            if fl is None:
+                continue
             fk = "%s:%s" % (fl[2], fileclass(fl[3]))
             ctx.count("flip.at." + fk)
             if fl[2] == "rename" and fileclass(fl[3]) == "toc":
                 ctx.count("flip.at_toc_rename")
             else:
                 ctx.count("flip.other")
-                ctx.note("history %d tx %d: flip old->new at %s" % (idx, j, fk))
-            info["sample"] = {"history": idx, "tx": tx, "events": nevents, "snapshots_evaluated": len(run.pending),
-                              "flip_after_event": [fl[0], fl[2], norm_name(fl[3])],
-                              "old_keys": keys_of(old_cmp["state"]), "new_keys": keys_of(new_cmp["state"])}
+                ctx.note("history %d tx %d: flip to state %d at %s" % (idx, j, m, fk))
+            if "sample" not in info:
+                info["sample"] = {"history": idx, "tx": tx, "events": nevents, "snapshots_evaluated": len(run.pending),
+                                  "flip_after_event": [fl[0], fl[2], norm_name(fl[3])],
+                                  "old_keys": keys_of(old_cmp["state"]), "new_keys": keys_of(new_cmp["state"])}
     # ---- real SIGKILL cross-validation of sampled crash points
     if ok and run.kill_samples:
         kills = 0
         for ks in run.kill_samples[:kill_budget]:
             kills += 1
-            if not validate_real_kill(ctx, root, pre, tx, idx, j, ks, old_cmp, new_cmp, wb):
+            if not validate_real_kill(ctx, root, pre, tx, idx, j, ks, states, bounds, wb):
                 ok = False
                 break
         info["kills"] = kills
@@ -854,39 +923,14 @@ def run_monitored_tx(ctx, tap, root, d, idx, j, tx, rng, wb, model, new_model, f
     return ok, info
 
 
-def last_mutating_before(events, pending, seen_new):
-    """The event executed immediately before the first 'full' snapshot that showed the new state."""
-    if not seen_new:
-        return None
-    first_new = None
-    for (n, kind, name, variant, cuts, obs) in pending:
-        if variant != "full":
-            continue
-        if not (isinstance(obs, tuple) and obs[0] == "old"):
-            first_new = n
-            break
-    if first_new is None:
-        return None
-    from vf.tap import MUTATING
-    best = None
-    for ev in events:
-        if ev[0] < first_new and ev[2] in MUTATING:
-            best = ev
-    return best
-
-
 def keys_of(state):
     if state == ABSENT:
         return ABSENT
     return sorted(state["dump"]["stored"])
 
 
-def nearest(c, old_cmp, new_cmp):
-    def g(x):
-        return None if x["state"] == ABSENT else x["state"]["gen"]
-    if g(c) == g(new_cmp) and g(c) != g(old_cmp):
-        return "new", new_cmp
-    return "old", old_cmp
+def state_gen(c):
+    return None if c["state"] == ABSENT else c["state"]["gen"]
 
 
 def phase_monitor(phase):
@@ -942,7 +986,7 @@ def crosscheck(ctx, label, ref, model, fs, wb):
 # real SIGKILL cross-validation
 # ----------------------------------------------------------------------
 
-def validate_real_kill(ctx, root, pre, tx, idx, j, ks, old_cmp, new_cmp, wb):
+def validate_real_kill(ctx, root, pre, tx, idx, j, ks, states, bounds, wb):
     """Run the same transaction in a child process on a copy of the pre-transaction directory, SIGKILL it from
     its own tap callback just before event k, then (a) the real crash directory must be one of the modelled
     snapshots of crash point k (closed files byte-identical; open files a stream prefix between flushed and
@@ -988,16 +1032,17 @@ def validate_real_kill(ctx, root, pre, tx, idx, j, ks, old_cmp, new_cmp, wb):
             ef.phase, type(e).__name__, _site(e)), w, _tb(e))
         return False
     c = comparable(obs)
-    if c != old_cmp and c != new_cmp:
-        which, ref = nearest(c, old_cmp, new_cmp)
+    lo = sum(1 for b in bounds if b < ks["n"])
+    allowed = states[lo:lo + 2]
+    if c not in allowed:
         ctx.fail("crash-state.atomicity", "neither-old-nor-new:real-sigkill:before:%s:%s" % (
-            ks["kind"], fileclass(ks["name"])), w, "; ".join(first_difference(ref, c)))
+            ks["kind"], fileclass(ks["name"])), w, "; ".join(first_difference(allowed[0], c)))
         return False
     if obs["orphans"]:
         ctx.fail("crash-state.orphans", "orphan-segment-file-survives-next-commit:real-sigkill", w, repr(obs["orphans"]))
         return False
     ctx.count("realkill.traces_validated")
-    ctx.count("realkill.outcome." + ("new" if c == new_cmp and c != old_cmp else "old"))
+    ctx.count("realkill.outcome." + ("old" if c == allowed[0] else "new"))
     return True
 
 
